@@ -5,7 +5,7 @@ import socket as S
 
 from hypothesis import strategies as st
 
-from .. import refmodel as rm
+from .. import approute, refmodel as rm
 from .. import simnet, urlgen
 from ..runner import Obs, exc_bucket, hyp_run
 
@@ -75,6 +75,8 @@ def run_parse(case):
             try:
                 if case.get("api") == "create_connection":
                     websocket.create_connection(url, timeout=3)
+                elif case.get("api") == "app":
+                    approute.connect(websocket, url, {})
                 else:
                     websocket.WebSocket().connect(url)
                 obs.fail(f"malformed|{kind}|connect-succeeds", f"connect({url!r}) returned")
@@ -135,6 +137,13 @@ def run_connect(case):
         try:
             if case.get("api") == "create_connection":
                 ws = websocket.create_connection(url, timeout=timeout, sockopt=sockopt)
+            elif case.get("api") == "app":
+                # WebSocketApp: socket options are a run_forever argument, the timeout is the process-wide default timeout
+                websocket.setdefaulttimeout(timeout)
+                try:
+                    ws = approute.connect(websocket, url, {"sockopt": sockopt})
+                finally:
+                    websocket.setdefaulttimeout(None)
             else:
                 ws = websocket.WebSocket(sockopt=sockopt)
                 ws.connect(url, timeout=timeout)
@@ -237,7 +246,7 @@ def bad_urls(draw):
         url = draw(st.sampled_from(["ws:", "wss:", "ws:/", "wss:/"])) + h + p
     else:
         url = f"ws://{h}:{draw(st.sampled_from(['x', '8o', '65536', '99999', '-5', '1e3', '٣']))}{p}"
-    return {"bad": url, "kind": kind, "api": draw(st.sampled_from(["connect", "create_connection"]))}
+    return {"bad": url, "kind": kind, "api": draw(st.sampled_from(["connect", "create_connection", "app"]))}
 
 
 @st.composite
@@ -252,7 +261,7 @@ def cases(draw):
     if draw(st.integers(0, 5)) == 0:
         sp = parts["scheme"]
         parts["scheme_spelling"] = draw(st.sampled_from([sp.upper(), sp.capitalize(), sp[:-1] + sp[-1].upper()]))
-    return {"mode": "connect", "url": parts, "addrs": pattern, "api": draw(st.sampled_from(["connect", "create_connection"])),
+    return {"mode": "connect", "url": parts, "addrs": pattern, "api": draw(st.sampled_from(["connect", "create_connection", "app"])),
             "timeout": draw(st.sampled_from([None, 0.5, 3, 7.25, 60])),
             "sockopt": draw(st.lists(st.sampled_from([[S.SOL_SOCKET, S.SO_REUSEADDR, 1], [S.SOL_TCP, S.TCP_NODELAY, 0], [S.SOL_SOCKET, S.SO_RCVBUF, 4096]]), max_size=2))}
 
@@ -262,7 +271,7 @@ def pattern_cases():
         for pat in itertools.product(OUTCOMES, repeat=n):
             for scheme in ("ws", "wss"):
                 parts = {"scheme": scheme, "host": "multi.test", "hostkind": "name", "port": None if n % 2 else 9000 + n, "path": "/p;v=1", "query": "a=1", "userinfo": None}
-                yield {"mode": "connect", "url": parts, "addrs": list(pat), "api": "connect" if (n + len(scheme)) % 2 else "create_connection",
+                yield {"mode": "connect", "url": parts, "addrs": list(pat), "api": ("connect", "create_connection", "app")[(n + len(scheme)) % 3],
                        "timeout": (None, 2.5, 10)[n % 3], "sockopt": [[S.SOL_SOCKET, S.SO_REUSEADDR, 1]] if n > 2 else []}
 
 
@@ -288,7 +297,7 @@ def run_job(job, coll):
         coll.exhaustive["address outcome patterns of length 1..4 over {accept, refused, unreachable, other} x {ws, wss}"] = True
     elif job["kind"] == "bad":
         for url, kind in BAD:
-            for api in ("connect", "create_connection"):
+            for api in ("connect", "create_connection", "app"):
                 coll.check({"bad": url, "kind": kind, "api": api}, run_case)
         for c in scheme_case_cases():
             coll.check(c, run_case)
